@@ -329,6 +329,8 @@ func (p Plan) sourceFails() bool {
 	return p.Payload == "reader" || p.Payload == "readcloser"
 }
 
+var hangSeen int32
+
 // Check executes the plan and applies the accounting invariants.
 func Check(p Plan) *kit.Violation {
 	before := goroutines()
@@ -613,11 +615,17 @@ func Check(p Plan) *kit.Violation {
 		done <- res
 	}()
 	dl := p.deadlineMs()
+	// once a hang has been reported the run is failing already: what follows is rapid re-running and shrinking that case, and
+	// with 8 s per attempt the shrinker outlives the shard's wall budget (seen with seeded change C12-14), so the slack drops
 	watchdog := time.Duration(dl)*time.Millisecond + 8*time.Second
+	if atomic.LoadInt32(&hangSeen) != 0 {
+		watchdog = time.Duration(dl)*time.Millisecond + 2*time.Second
+	}
 	var out result
 	select {
 	case out = <-done:
 	case <-time.After(watchdog):
+		atomic.StoreInt32(&hangSeen, 1)
 		return kit.Failf("HANG: Submit did not return within %v (effective deadline %d ms)", watchdog, dl)
 	}
 	elapsed := time.Since(start)
